@@ -117,7 +117,7 @@ Lemma cksf_tail_inv3 s1 i r :
   inv1 s1 -> inv3 s1 -> aget i (live s1) = Some r ->
   inv3 {| store := store s1; pend := pend s1; tick := tick s1 + 1; applied := applied s1;
           live := aput i (set_stamp r (tick s1)) (live s1); leases := leases s1; dp := dp s1; dpnext := dpnext s1;
-          released := released s1; used := used s1; poison := poison s1; completed := completed s1 |}.
+          released := released s1; used := used s1; poison := poison s1; completed := completed s1; delpend := delpend s1 |}.
 Proof.
   intros I1 I3 L. d1 I1. d3 I3. constructor; cbn [store live pend tick applied completed].
   - intros j r0 t. rewrite aget_aput. eqb_case j i; [|eauto].
@@ -217,14 +217,56 @@ Proof.
   fold (flush c s i (tick s)) in J1, J3, B. apply cksf_tail_inv3; auto. rewrite B. auto.
 Qed.
 
-Lemma do_relf_inv3 c s i :
-  c_ordered c = true -> c_delretry c = true -> inv1 s -> inv3 s -> inv3 (fst (do_relf c s i)).
+Lemma relf_tail_inv3 s1 i r ls d dl :
+  inv1 s1 -> inv3 s1 -> aget i (live s1) = Some r ->
+  inv3 {| store := store s1; pend := pend s1; tick := tick s1 + 1; applied := aput i (tick s1) (applied s1);
+          live := aremove i (live s1); leases := ls; dp := d; dpnext := dpnext s1; released := released s1;
+          used := used s1; poison := poison s1; completed := completed s1; delpend := dl |}.
 Proof.
-  intros O D I1 I3. destruct (aget i (live s)) as [r|] eqn:L.
-  - rewrite (do_relf_eq c s i r D L). apply do_rel_inv3.
-    + apply relf_pre_inv1; auto.
-    + unfold relf_pre. rewrite O. destruct (first_of c s i (pend s)); auto. apply do_done_core_inv3; auto.
-  - unfold do_relf. rewrite L. auto.
+  intros I1 I3 L. d1 I1. d3 I3. constructor; cbn [store live pend tick applied completed].
+  - intros j r0 t. rewrite aget_aremove. eqb_case j i; [discriminate|eauto].
+  - intros j t IN. destruct (m_done0 _ _ IN) as (a & A & LE). rewrite aget_aput. eqb_case j i; eauto.
+    apply i_appl_tick0 in A. eexists. split; eauto. lia.
+  - intros tn rp rl t G. rewrite aget_aremove. eqb_case (s_id rp) i; [discriminate|eauto].
+  - intros tn rp rl t G. rewrite aget_aremove. eqb_case (s_id rp) i; [discriminate|eauto].
+  - auto.
+  - intros j r0 t. rewrite aget_aremove. eqb_case j i; [discriminate|]. intros H ST.
+    pose proof (m_lst0 _ _ _ H ST). lia.
+  - intros j r0 t H ST. pose proof (m_sst0 _ _ _ H ST). lia.
+Qed.
+
+Lemma do_relf_inv3 c s i : c_ordered c = true -> inv1 s -> inv3 s -> inv3 (fst (do_relf c s i)).
+Proof.
+  intros O I1 I3. unfold do_relf. destruct (aget i (live s)) as [r|] eqn:L; auto. fold (relf_pre c s i). cbn [fst].
+  apply (relf_tail_inv3 (relf_pre c s i) i r).
+  - apply relf_pre_inv1; auto.
+  - unfold relf_pre. rewrite O. destruct (first_of c s i (pend s)); auto. apply do_done_core_inv3; auto.
+  - rewrite relf_pre_live. auto.
+Qed.
+
+Lemma do_delretry_inv3 s i ok : inv1 s -> inv4 s -> inv3 s -> inv3 (fst (do_delretry s i ok)).
+Proof.
+  intros I1 I4 I3. unfold do_delretry. destruct (aget i (delpend s)) as [[|]|] eqn:G; auto. destruct ok; auto.
+  pose proof (d_live s I4 i false G) as LN. d1 I1. d3 I3.
+  constructor; cbn [fst store live pend tick applied completed].
+  - intros j r0 t GL ST IN. rewrite aget_aremove_neq; eauto. intro; subst. congruence.
+  - intros j t IN. destruct (m_done0 _ _ IN) as (a & A & LE). rewrite aget_aput. eqb_case j i; eauto.
+    apply i_appl_tick0 in A. eexists. split; eauto. lia.
+  - auto.
+  - auto.
+  - auto.
+  - intros j r0 t H ST. pose proof (m_lst0 _ _ _ H ST). lia.
+  - intros j r0 t. rewrite aget_aremove. eqb_case j i; [discriminate|]. intros H ST.
+    pose proof (m_sst0 _ _ _ H ST). lia.
+Qed.
+
+Lemma set_delpend_inv3 s d : inv3 s -> inv3 (set_delpend s d).
+Proof. intros I. d3 I. constructor; cbn [set_delpend store live pend tick applied completed]; auto. Qed.
+
+Lemma do_giveup_inv3 c s i : inv3 s -> inv3 (fst (do_giveup c s i)).
+Proof.
+  intros I. unfold do_giveup. destruct (aget i (delpend s)) as [[|]|]; auto. destruct (c_delforever c); auto.
+  apply set_delpend_inv3; auto.
 Qed.
 
 (* ---- crash + restore ---- *)
@@ -268,7 +310,7 @@ Proof.
              xinv c now store0
                {| store := st'; pend := pd'; tick := tk'; applied := applied s; live := lv';
                   leases := ls; dp := d; dpnext := nx; released := released s; used := used s;
-                  poison := poison s; completed := completed s |}).
+                  poison := poison s; completed := completed s; delpend := delpend s |}).
   { intros rS rL st' pd' tk' lv' ls d nx HL CS CL HS HP.
     assert (SK : exists rc, aget k st' = Some rc /\ same_core r rc).
     { destruct HS as [->| ->]; [apply XK; auto | rewrite aget_aput_eq; eauto]. }
@@ -372,10 +414,10 @@ Proof.
 Qed.
 
 Lemma step_inv13 c s o s' out :
-  c_ordered c = true -> delok c o ->
-  inv1 s /\ inv3 s -> step c s o = Some (s', out) -> inv1 s' /\ inv3 s'.
+  c_ordered c = true ->
+  (inv1 s /\ inv4 s) /\ inv3 s -> step c s o = Some (s', out) -> (inv1 s' /\ inv4 s') /\ inv3 s'.
 Proof.
-  intros O DR (I1 & I3) H. split; [eapply step_inv1; eauto|].
+  intros O ((I1 & I4) & I3) H. split; [eapply step_inv14; eauto|].
   destruct o; cbn [step] in H.
   - eapply do_new_inv3; eauto.
   - inversion H. change s' with (fst (s', out)). rewrite <- H1. apply do_ck_inv3; auto.
@@ -384,7 +426,9 @@ Proof.
   - inversion H. change s' with (fst (s', out)). rewrite <- H1. apply do_done_inv3; auto.
   - inversion H. change s' with (fst (s', out)). rewrite <- H1. apply do_poison_inv3; auto.
   - inversion H. change s' with (fst (s', out)). rewrite <- H1. apply do_cksf_inv3; auto.
-  - inversion H. change s' with (fst (s', out)). rewrite <- H1. destruct DR as [DR|[]]. apply do_relf_inv3; auto.
+  - inversion H. change s' with (fst (s', out)). rewrite <- H1. apply do_relf_inv3; auto.
+  - inversion H. change s' with (fst (s', out)). rewrite <- H1. apply do_delretry_inv3; auto.
+  - inversion H. change s' with (fst (s', out)). rewrite <- H1. apply do_giveup_inv3; auto.
   - inversion H; subst; auto.
   - inversion H. change s' with (fst (s', out)). rewrite <- H1. apply do_crash_inv3; auto.
   - inversion H. change s' with (fst (s', out)). rewrite <- H1. apply do_relstop_inv3; auto.
@@ -392,17 +436,18 @@ Qed.
 
 (* an established session whose latest checkpoint took effect has its image in the store *)
 Lemma established_has_image c ops s :
-  c_ordered c = true -> Forall (delok c) ops -> run c init ops = Some s ->
+  c_ordered c = true -> run c init ops = Some s ->
   forall i r t, aget i (live s) = Some r -> s_stamp r = Some t -> In (i, t) (completed s) ->
   (exists r0, aget i (store s) = Some r0 /\ same_core r0 r) /\
   (forall (p : bool) f now, expired c now r = false ->
      exists r', aget i (live (fst (do_crash c s p f now))) = Some r' /\ same_core r r').
 Proof.
-  intros O DR R i r t GL ST IN.
+  intros O R i r t GL ST IN.
   assert (I : inv1 s /\ inv3 s).
-  { eapply (run_inv_ok (fun s => inv1 s /\ inv3 s) (delok c) c); eauto.
+  { assert (J : (inv1 s /\ inv4 s) /\ inv3 s); [|tauto].
+    eapply (run_inv (fun s => (inv1 s /\ inv4 s) /\ inv3 s) c); eauto.
     - intros. eapply step_inv13; eauto.
-    - split; [apply inv1_init|apply inv3_init]. }
+    - split; [split; [apply inv1_init|apply inv4_init]|apply inv3_init]. }
   destruct I as (I1 & I3). destruct (m_sync s I3 i r t GL ST IN) as (r0 & G0 & SC).
   split; [eauto|]. intros p f now EX.
   assert (EX0 : expired c now r0 = false).
@@ -459,4 +504,33 @@ Proof.
     change s4 with (fst (s4, lg)). rewrite <- E, G. reflexivity.
   - intros k r G EX.
     destruct (established_restored c (relstop_pre c s i pd) p f now k r G EX) as (lg & _ & r' & GL & SC & _). eauto.
+Qed.
+
+(* ---- the residual window of a failed checkpoint Delete ---- *)
+(* a successful repetition makes the release durable *)
+Lemma delete_retry_closes s i :
+  aget i (delpend s) = Some false ->
+  let s' := fst (do_delretry s i true) in
+  In i (released s') /\ aget i (store s') = None /\ aget i (delpend s') = None.
+Proof.
+  intros G s'. unfold s', do_delretry. rewrite G. cbn [fst released store delpend].
+  rewrite !aget_aremove_eq. repeat split; auto. left; auto.
+Qed.
+
+(* while it is outstanding the session is not (yet) released, and a stop restores it from the image that is still there *)
+Lemma delete_pending_window c ops s :
+  c_ordered c = true -> run c init ops = Some s ->
+  forall i g, aget i (delpend s) = Some g ->
+  aget i (live s) = None /\
+  (forall r (p : bool) f now, aget i (store s) = Some r -> expired c now r = false ->
+     exists r', aget i (live (fst (do_crash c s p f now))) = Some r' /\ same_core r r').
+Proof.
+  intros O R i g G.
+  assert (J : inv1 s /\ inv4 s).
+  { eapply (run_inv (fun s => inv1 s /\ inv4 s) c); eauto.
+    - intros. eapply step_inv14; eauto.
+    - split; [apply inv1_init|apply inv4_init]. }
+  destruct J as (_ & I4). split; [eapply d_live; eauto|].
+  intros r p f now GS EX.
+  destruct (established_restored c s p f now i r GS EX) as (lg & _ & r' & GL & SC & _). eauto.
 Qed.
